@@ -1801,9 +1801,10 @@ def _readsegment(
             result += before
             return after, result
 
-        buf = _recv(sock, RECV_SIZE)
-        if not buf:
+        chunk = _recv(sock, RECV_SIZE)
+        if not chunk:
             raise MemcacheUnexpectedCloseError()
+        buf += chunk
 
 
 def _recv(sock: socket.socket, size: int) -> bytes:
